@@ -142,6 +142,29 @@ def job_lagrange(cfg):
                 res.record(f"{elemType} d^{k}N{i}/dx{d}^{k}", prove_abs_le(tv - der, TOL, assume, f"{elemType} d{k}N{i},{d}"),
                            replay_d, key=f"{elemType} derivative-table order{k} N{i} axis{d}",
                            sample=None if (i or d or k > 1) else {"elem": elemType, "obligation": f"for all points: |dN_table[{i}][{d}] - dN_{i}/dx_{d}| <= 1e-11"})
+    # --- (e) the number TYPE of the evaluation point does not matter: at nodes with integral reference coordinates, every table entry
+    #     evaluated on Python ints, numpy integer scalars and integer arrays equals its value on the same point given as floats
+    int_nodes = [j for j in range(nPe) if all(float(x) == int(x) for x in loc[j])]
+    allfun = [("N", i, 0, f) for i, f in enumerate(Nfun)]
+    for k in range(1, max_order + 1):
+        tabk = np.asarray(tables[k](), dtype=object).reshape(nPe, -1)
+        allfun += [(f"d{k}N", i, d, tabk[i, d]) for i in range(nPe) for d in range(tabk.shape[1])]
+    bad_int = []
+    for name, i, d, f in allfun:
+        for j in int_nodes:
+            pf = [float(x) for x in loc[j]]
+            pi = [int(x) for x in loc[j]]
+            ref = float(f(*pf))
+            try:
+                vals = [float(f(*pi)), float(f(*[np.int64(x) for x in pi])), float(np.asarray(f(*[np.array([x, x], dtype=int) for x in pi]), dtype=float).reshape(-1)[0])]
+            except Exception as e:
+                bad_int.append((name, i, d, j, repr(e)[:80]))
+                continue
+            if any(abs(v - ref) > 1e-12 for v in vals):
+                bad_int.append((name, i, d, j, vals, ref))
+    if int_nodes:
+        res.record(f"{elemType} tables on integer-typed points", Outcome("held", how="ground-exact") if not bad_int else Outcome("cex", env={}, how="ground", detail=str(bad_int[:3])),
+                   lambda env: (bool(bad_int), {"entries_differing_between_integer_and_float_points": len(bad_int), "first": str(bad_int[:3])}), key=f"{elemType} integer-typed evaluation points")
     # one cvc5 cross-check per element (partition of unity)
     if cross:
         conds = ctx().domain_conds({_vid(v) for v in vs}) + assume
